@@ -10,3 +10,4 @@ CONSTANTS
   Resizes <- AltResizes
   MaxDepth = 4
   Emit = TRUE
+  CheckDump = FALSE
